@@ -284,6 +284,11 @@ class PairwiseDistances(PairwiseBase):
             n = [0, 1, 2, 3, 5, 4][t % 6]
             yield dict(n=n, pos=[[rng.choice([0.5, 1.5, 2.5, 3.5, 7.5]) for _ in range(case["dim"])] for _ in range(n)],
                        rad=[rng.choice([0.5, 1.0, 1.5]) for _ in range(n)], sub=bool(t % 2))
+        if case.get("grid") != "given":
+            # centres far from the origin compared with their separations (all values exactly representable): the centre distance is the norm
+            # of the DIFFERENCE of the positions - formulas that are equal over the reals but cancel in floating point are off by O(1) here
+            for off in (1e8, -3e7):
+                yield dict(n=4, pos=[[off + x + 0.5 * a for a in range(case["dim"])] for x in (0.5, 1.5, 3.5, 7.5)], rad=[0.5, 1.0, 0.5, 1.5], sub=True)
 
     def concrete_run(self, case, inputs):
         import numpy as np
